@@ -435,9 +435,14 @@ func (e *aEngine) runPathGo(kind int, path []int, v variant) (res pathResult, pa
 	if v != nil {
 		vv = rt.ToValue([]int(v))
 	}
+	e.arm(20_000_000)
 	r, err := e.runPath(goja.Undefined(), rt.ToValue(kind), rt.ToValue(path), rt.ToValue(-1), vv)
 	if err != nil {
-		return pathResult{outs: []string{"harness-error:" + err.Error()}}, ""
+		e.broken = true
+		if _, ok := err.(*goja.InterruptedError); ok {
+			return pathResult{outs: []string{"nontermination"}}, ""
+		}
+		return pathResult{outs: []string{"harness-error:" + firstLine(err.Error())}}, ""
 	}
 	o := r.(*goja.Object)
 	for _, x := range o.Get("outs").Export().([]interface{}) {
@@ -695,9 +700,12 @@ func expandState(e *aEngine, kindI int, path []int, variants [][]int, opLo, opHi
 	if path == nil {
 		path = []int{}
 	}
+	e.arm(uint64(opHi-opLo) * uint64(1+len(variants)) * 2_000_000)
 	v, err := e.expand(goja.Undefined(), rt.ToValue(kindI), rt.ToValue(path), rt.ToValue(variants), rt.ToValue(opLo), rt.ToValue(opHi))
 	if err != nil {
-		panic("expandA: " + err.Error())
+		// an interrupt (step budget) or an exception escaping the harness: treated like a crash of this expansion; the
+		// caller falls back to one operation at a time and reports the culprit
+		panic("expandA: " + firstLine(err.Error()))
 	}
 	o := v.(*goja.Object)
 	for _, x := range o.Get("keys").Export().([]interface{}) {
